@@ -45,7 +45,8 @@ Guards:
 
 Findings on the unchanged tree (kept firing, see the report): ``o2m-dict-replace-raises-
 invalidrequest``, ``o2m-list-swap-member-lost-on-flush``, ``o2m-list-duplicate-members-
-backref``.
+backref`` (in memory) and ``o2m-list-duplicate-members-lost-on-flush`` (after reload; only
+sequences that were allowed duplicates, mostly seen in the thorough tier).
 """
 from __future__ import annotations
 
